@@ -1,0 +1,110 @@
+//go:build verif
+
+package file
+
+// Contracts for the verification harness under /verif (comment-only file).
+//
+// C06: the worker hands the pipeline exactly the complete lines of the file.
+//
+// Ghost state of the job being worked on (re-bound each time a job is taken
+// from the channel): content is the byte string the file holds / will hold
+// (append-only in the absence of truncation), fpos the descriptor position,
+// ls the absolute offset where the pending (not yet handed over) line starts.
+// P := lastOffset + scanned is the absolute offset of the next unparsed byte.
+//
+// Job invariant J (assumed when a job is received, proved where it is handed
+// back):  curOffset == fpos,  0 <= ls <= fpos,  no newline in content[ls:fpos),
+// and tail relates to content[ls:fpos) as accumBuf does below.
+//
+// Relation R(acc, ls, P) between the accumulated bytes and the pending region:
+//   len(acc) <= P - ls;  len(acc) == P - ls ==> acc == content[ls:P)  (no size rule fired);
+//   bytes are dropped only by a size rule: len(acc) < P - ls ==> shouldCheckMax,
+//   len(acc) >= maxEventSize, and in skip mode (cut-off disabled) len(acc) > maxEventSize;
+//   with cut-off enabled the first min(len, maxEventSize) bytes are content[ls:...).
+//
+// Scope: uncompressed jobs (the lz4 branch redefines offsets); stated as part of
+// the channel invariant.  I/O errors end the process (allow-exit).
+
+//@ func (*worker).work
+//@   option allow-exit yes
+//@   option dead-loops 2,3
+//@   ghost content seq
+//@   ghost fpos int
+//@   ghost ls int
+//@   ghost wasSkip bool = false
+//@   requires readBufferSize >= 1 && w.maxEventSize >= 0
+//@   loop 1 invariant len(readBuf) == readBufferSize && disjoint(accumBuf, readBuf) && !isnil(readBuf) && !isnil(accumBuf)
+//@   loop 1 invariant shouldCheckMax == (w.maxEventSize != 0) && w.maxEventSize >= 0
+//@   loop 4 invariant len(readBuf) == readBufferSize && disjoint(accumBuf, readBuf) && !isnil(readBuf) && !isnil(accumBuf)
+//@   loop 4 invariant !sameblock(job.tail, readBuf) && !sameblock(job.tail, accumBuf) && job.curOffset == lastOffset
+//@   loop 4 invariant shouldCheckMax == (w.maxEventSize != 0) && w.maxEventSize >= 0 && !job.isCompressed && job != nil
+//@   loop 4 invariant 0 <= readTotal && scanned == readTotal && fpos == lastOffset + readTotal && fpos <= len(content)
+//@   loop 4 invariant 0 <= ls && ls <= lastOffset + scanned && nochr(content[ls:lastOffset+scanned], '\n')
+//@   loop 4 invariant len(accumBuf) <= lastOffset + scanned - ls
+//@   loop 4 invariant len(accumBuf) == lastOffset + scanned - ls ==> seqeq(accumBuf, content, ls)
+//@   loop 4 invariant len(accumBuf) < lastOffset + scanned - ls ==> shouldCheckMax && len(accumBuf) >= w.maxEventSize && (!w.cutOffEventByLimit ==> len(accumBuf) > w.maxEventSize)
+//@   loop 4 invariant shouldCheckMax && w.cutOffEventByLimit ==> seqeq(accumBuf[:min(len(accumBuf), w.maxEventSize)], content, ls)
+//@   loop 5 invariant len(readBuf) == readBufferSize && disjoint(accumBuf, readBuf) && !isnil(readBuf) && !isnil(accumBuf)
+//@   loop 5 invariant !sameblock(job.tail, readBuf) && !sameblock(job.tail, accumBuf) && job.curOffset == lastOffset
+//@   loop 5 invariant shouldCheckMax == (w.maxEventSize != 0) && w.maxEventSize >= 0 && !job.isCompressed && job != nil
+//@   loop 5 invariant 0 <= readTotal && 0 <= scanned && fpos == lastOffset + readTotal && fpos <= len(content)
+//@   loop 5 invariant sameblock(buf, readBuf) && lastOffset + scanned + len(buf) == lastOffset + readTotal && seqeq(buf, content, lastOffset + scanned)
+//@   loop 5 invariant 0 <= ls && ls <= lastOffset + scanned && nochr(content[ls:lastOffset+scanned], '\n')
+//@   loop 5 invariant len(accumBuf) <= lastOffset + scanned - ls
+//@   loop 5 invariant len(accumBuf) == lastOffset + scanned - ls ==> seqeq(accumBuf, content, ls)
+//@   loop 5 invariant len(accumBuf) < lastOffset + scanned - ls ==> shouldCheckMax && len(accumBuf) >= w.maxEventSize && (!w.cutOffEventByLimit ==> len(accumBuf) > w.maxEventSize)
+//@   loop 5 invariant shouldCheckMax && w.cutOffEventByLimit ==> seqeq(accumBuf[:min(len(accumBuf), w.maxEventSize)], content, ls)
+//@   setat "if shouldCheckMax && !w.cutOffEventByLimit && len(accumBuf)+len(line) > w.maxEventSize {" wasSkip := skipLine
+//@   assert at "job.shouldSkip.Store(false)" wasSkip || (shouldCheckMax && !w.cutOffEventByLimit && lastOffset + scanned - ls > w.maxEventSize)
+//@   setat "accumBuf = accumBuf[:0]" ls := lastOffset + scanned
+//@   callee chanrecv:jobsChan() (j)
+//@     ghostout content, fpos, ls
+//@     ensures j != nil ==> !j.isDone && !j.isCompressed && j.mimeType != "application/x-lz4"
+//@     ensures j != nil ==> j.curOffset == fpos && 0 <= ls && ls <= fpos && fpos <= len(content) && nochr(content[ls:fpos], '\n')
+//@     ensures j != nil ==> len(j.tail) <= fpos - ls && (len(j.tail) == fpos - ls ==> seqeq(j.tail, content, ls))
+//@     ensures j != nil ==> (len(j.tail) < fpos - ls ==> w.maxEventSize != 0 && len(j.tail) >= w.maxEventSize && (!w.cutOffEventByLimit ==> len(j.tail) > w.maxEventSize))
+//@     ensures j != nil ==> (w.maxEventSize != 0 && w.cutOffEventByLimit ==> seqeq(j.tail[:min(len(j.tail), w.maxEventSize)], content, ls))
+//@     ensures j != nil ==> !sameblock(j.tail, readBuf) && !sameblock(j.tail, accumBuf)
+//@   callee Read(p) (n, err)
+//@     modifies p
+//@     ghostout fpos
+//@     ensures 0 <= n && n <= len(p) && fpos == old(fpos) + n && fpos <= len(content)
+//@     ensures seqeq(p[:n], content, old(fpos))
+//@     ensures err != nil ==> n == 0
+//@   callee In(sourceID, sourceName, offs, data, isNew, meta) (seq)
+//@     requires offs.current == lastOffset + scanned && lastOffset + scanned >= 1 && content[lastOffset + scanned - 1] == '\n'
+//@     requires 0 <= ls && ls < lastOffset + scanned && nochr(content[ls:lastOffset+scanned-1], '\n')
+//@     requires len(data) >= 1 && data[len(data)-1] == '\n' && len(data) <= lastOffset + scanned - ls
+//@     requires len(data) == lastOffset + scanned - ls ==> seqeq(data, content, ls)
+//@     requires !(shouldCheckMax && w.cutOffEventByLimit) ==> len(data) == lastOffset + scanned - ls
+//@     requires len(data) < lastOffset + scanned - ls ==> len(data) > w.maxEventSize && seqeq(data[:w.maxEventSize], content, ls)
+//@     requires shouldCheckMax && !w.cutOffEventByLimit ==> len(data) <= w.maxEventSize
+//@     modifies data
+//@   callee IncReadOps()
+//@     pure
+//@   callee IncMaxEventSizeExceeded(l)
+//@     pure
+//@   callee newMetaInformation(a, b, c, d)
+//@     pure
+//@   callee Render(m)
+//@     pure
+//@   callee Name()
+//@     pure
+//@   callee isNotFileBeingWritten(n)
+//@     pure
+//@   callee Errorf(f, a)
+//@     pure
+//@   callee Error(m, f)
+//@     pure
+//@   callee processEOF(file, j, jp, total)
+//@     requires j.curOffset == fpos && total == fpos && 0 <= ls && ls <= fpos && nochr(content[ls:fpos], '\n')
+//@     requires len(j.tail) <= fpos - ls && (len(j.tail) == fpos - ls ==> seqeq(j.tail, content, ls))
+//@     requires len(j.tail) < fpos - ls ==> w.maxEventSize != 0 && len(j.tail) >= w.maxEventSize && (!w.cutOffEventByLimit ==> len(j.tail) > w.maxEventSize)
+//@     requires w.maxEventSize != 0 && w.cutOffEventByLimit ==> seqeq(j.tail[:min(len(j.tail), w.maxEventSize)], content, ls)
+//@     preserves worker
+//@   callee continueJob(j)
+//@     requires j.curOffset == fpos && 0 <= ls && ls <= fpos && nochr(content[ls:fpos], '\n')
+//@     requires len(j.tail) <= fpos - ls && (len(j.tail) == fpos - ls ==> seqeq(j.tail, content, ls))
+//@     requires len(j.tail) < fpos - ls ==> w.maxEventSize != 0 && len(j.tail) >= w.maxEventSize && (!w.cutOffEventByLimit ==> len(j.tail) > w.maxEventSize)
+//@     requires w.maxEventSize != 0 && w.cutOffEventByLimit ==> seqeq(j.tail[:min(len(j.tail), w.maxEventSize)], content, ls)
+//@     preserves worker
